@@ -31,7 +31,7 @@ pub const ALPHA_SRC: &str = "(def (Report (volatile acked 0) (rtt 0)) (ctl 10) (
         (when true (:= Report.acked (+ Report.acked Ack.bytes_acked)) (:= Report.rtt Flow.rtt_sample_us) (:= loc 5) (fallthrough))
         (when (> Micros 3000) (report) (:= Micros 0))";
 
-pub const PROGS: [(&str, &str); 13] = [
+pub const PROGS: [(&str, &str); 14] = [
     ("alpha", ALPHA_SRC),
     ("beta", "(def (Report (volatile loss 0) (volatile sacked 0) (volatile inflight 0)) (thresh 100))
         (when true (:= Report.loss Ack.lost_pkts_sample) (:= Report.inflight Flow.packets_in_flight) (fallthrough))
@@ -55,13 +55,15 @@ pub const PROGS: [(&str, &str); 13] = [
     ("theta", "(def (Report (z2 0)) (t 2)) (when true (:= Report.z2 t) (report))"),
     ("iota", "(def (Report (volatile z3 0))) (when (> Micros 100) (:= Report.z3 3) (report) (:= Micros 0))"),
     ("kappa", "(def (Report (z4 0)) (kk 4) (Kk 5)) (when true (:= Report.z4 (+ kk Kk)) (report))"),
+    // a program that declares control variables of its own under the names of the writable built-ins
+    ("lambda", "(def (Report (volatile q 0)) (Cwnd 7) (Rate 8)) (when true (:= Report.q (+ Cwnd Rate)) (report))"),
 ];
 
 /// names whose lookup result is part of a program's descriptor
-pub const PROBE_NAMES: [&str; 33] = [
+pub const PROBE_NAMES: [&str; 34] = [
     "Report.acked", "Report.rtt", "ctl", "vctl", "loc", "Report.loss", "Report.sacked", "Report.inflight", "thresh",
     "Report.x", "k", "Report.one", "c1", "Report.two", "Report.three", "c2", "Report.m", "a", "b", "c",
-    "Cwnd", "Rate", "Micros", "Ack.bytes_acked", "Reported", "Report.m2", "Report.z1", "Report.z2", "t", "Report.z3", "Report.z4", "kk", "Kk",
+    "Cwnd", "Rate", "Micros", "Ack.bytes_acked", "Reported", "Report.m2", "Report.z1", "Report.z2", "t", "Report.z3", "Report.z4", "kk", "Kk", "Report.q",
 ];
 pub const EXTRA_FIELD_NAMES: [&str; 6] = ["__eventFlag", "__shouldReport", "nosuch", "Flow.was_timeout", "__x", ""];
 
@@ -107,6 +109,8 @@ pub struct Ctx {
     pub recv_after_stop: usize,
     pub new_cmds: Vec<Cmd>,
     pub rep_cmds: Vec<Cmd>,
+    pub cur_addr: u64,                          // address of the datagram being processed
+    pub haddr: HashMap<usize, u64>,             // handler id -> address its create came from
 }
 
 pub struct RtIpc { pub ctx: Arc<Mutex<Ctx>>, pub flag: Arc<AtomicBool> }
@@ -216,6 +220,7 @@ impl Ipc for RtIpc {
                 for s in &syms { d.extend(encode_sym(&c, s)); }
                 let n = d.len().min(msg.len());
                 msg[..n].copy_from_slice(&d[..n]);
+                c.cur_addr = a;
                 Ok((n, a))
             }
             Some(REv::E) => Err(portus::Error("scripted recv failure".into())),
@@ -310,7 +315,10 @@ impl RecFlow {
                                 let first = gf_str(r.get_field(field, sc));
                                 let _ = catch(|| portus::lang::compile(&[0x28, 0xff, 0xfe, 0x29], &[]).is_ok());
                                 let _ = catch(|| portus::lang::compile(b"(def", &[]).is_ok());
-                                let fresh = PROGS.iter().find(|(n, _)| *n == p.as_str()).and_then(|(_, src)| catch(|| portus::lang::compile(src.as_bytes(), &[]).ok()).flatten());
+                                // ... made on a thread of its own (a compilation is a compilation wherever it runs)
+                                let fresh = PROGS.iter().find(|(n, _)| *n == p.as_str()).and_then(|(_, src)| {
+                                    let src: &'static str = src;
+                                    std::thread::spawn(move || catch(|| portus::lang::compile(src.as_bytes(), &[]).ok()).flatten()).join().ok().flatten() });
                                 match fresh {
                                     Some((_, sc2)) => { let second = gf_str(r.get_field(field, &sc2)); if second == first { first } else { format!("{} BUT-FRESH-COMPILATION-GIVES {}", first, second.replace(' ', "-")) } }
                                     None => first,
@@ -371,6 +379,7 @@ impl<const K: usize> CongAlg<RtIpc> for Alg<K> {
         let (hid, cmds) = {
             let mut c = self.ctx.lock().unwrap();
             let hid = c.next_hid;
+            let a = c.cur_addr; c.haddr.insert(hid, a);
             c.next_hid += 1;
             c.log.push(format!("NEW h{} i{} {:x} {:x} {:x} {:x} {:x} {:x} {:x} hs{:x}", hid, self.inst, info.sock_id, info.init_cwnd, info.mss,
                 info.src_ip, info.src_port, info.dst_ip, info.dst_port, control.get_sock_id()));
@@ -540,8 +549,22 @@ pub fn canon_log(log: Vec<String>) -> Vec<String> {
     out
 }
 
+/// Every case runs its runtime on a thread of its own, as an application that spawns its CCP does
+/// (the compilations the harness makes for itself happen on the calling thread).
 pub fn run_case(case: &Case) -> String {
-    let (images, own) = table_images();
+    let r = run_case_raw(case);
+    r.split('\u{1}').next().unwrap_or("").to_string()
+}
+
+pub fn run_case_raw(case: &Case) -> String {
+    // (the harness's own compilations on yet another fresh thread: two threads that have each compiled a
+    // few programs are the situation in which per-thread uid numbering would collide)
+    let pre = std::thread::spawn(table_images).join().unwrap_or_else(|_| (vec![], HashMap::new()));
+    std::thread::scope(|s| s.spawn(move || run_case_on_this_thread(case, pre)).join()).unwrap_or_else(|_| "PANIC => PANIC".to_string())
+}
+
+fn run_case_on_this_thread(case: &Case, pre: (Vec<(usize, Vec<u8>)>, HashMap<String, Scope>)) -> String {
+    let (images, own) = pre;
     let own = Arc::new(own);
     let probe_src = format!("(def (Report {})) (when true (report))", (0..16).map(|i| format!("(f{} 0)", i)).collect::<Vec<_>>().join(" "));
     let probe = catch(|| portus::lang::compile(probe_src.as_bytes(), &[])).and_then(|r| r.ok()).map(|(_, sc)| sc);
@@ -549,7 +572,7 @@ pub fn run_case(case: &Case) -> String {
         probe, booting: false, boot_done: false, boot_step: 0, boot_name: None, uid_name: HashMap::new(), boot_installs: vec![],
         log: vec![], script: case.events.clone().into(), sends: 0, sendfail: case.sendfail.clone(), next_hid: 0,
         images, canon: HashMap::new(), actual: HashMap::new(), closed: 0, stopped: false, recv_after_stop: 0,
-        new_cmds: case.new_cmds.clone(), rep_cmds: case.rep_cmds.clone(),
+        new_cmds: case.new_cmds.clone(), rep_cmds: case.rep_cmds.clone(), cur_addr: 0, haddr: HashMap::new(),
     }));
     let flag = Arc::new(AtomicBool::new(!case.stop0));
     let ipc = RtIpc { ctx: ctx.clone(), flag: flag.clone() };
@@ -562,7 +585,115 @@ pub fn run_case(case: &Case) -> String {
     let log = canon_log(c.log.clone());
     let r = match res { None => "PANIC", Some(Ok(())) => "OK", Some(Err(_)) => "ERR" };
     let extra = format!("strong={} recv_after_stop={}", Arc::strong_count(&flag), c.recv_after_stop);
-    format!("{} => {} {}", if log.is_empty() { "-".to_string() } else { log.join(" ; ") }, r, extra)
+    let out = format!("{} => {} {}", if log.is_empty() { "-".to_string() } else { log.join(" ; ") }, r, extra);
+    // the handler addresses travel with the result to the calling thread
+    format!("{}\u{1}{}", out, c.haddr.iter().map(|(k, v)| format!("{}={:x}", k, v)).collect::<Vec<_>>().join(","))
+}
+
+/// What one datapath sees of a run: the callbacks of the handlers its creates made (renumbered in
+/// order of creation), the commands those callbacks issued, and everything sent to its address.
+fn view_of(result: &str, haddr: &HashMap<usize, u64>, a: u64) -> Vec<String> {
+    let body = result.split(" => ").next().unwrap_or("");
+    let mut rank: HashMap<usize, usize> = HashMap::new();
+    let mut out = vec![];
+    let mut cur: Option<usize> = None;      // the handler whose callback is running
+    let dest = format!("a{:x}", a);
+    for it in body.split(" ; ") {
+        let t: Vec<&str> = it.split(' ').collect();
+        let hid = |s: &str| s.strip_prefix('h').and_then(|x| x.parse::<usize>().ok());
+        match t.first().copied() {
+            Some("NEW") | Some("REP") | Some("CLOSE") | Some("DROP") => {
+                let h = t.get(1).and_then(|s| hid(s));
+                cur = h;
+                if let Some(h) = h { if haddr.get(&h) == Some(&a) {
+                    let n = rank.len(); let k = *rank.entry(h).or_insert(n);
+                    if t[0] != "DROP" { out.push(format!("{} H{} {}", t[0], k, t[2..].join(" "))); }
+                } }
+            }
+            Some("CMD") | Some("GET") => { if let Some(h) = cur { if haddr.get(&h) == Some(&a) { out.push(it.to_string()); } } }
+            Some("CHG") | Some("UPD") | Some("SEND") | Some("SENDFAIL") => { if t.get(1) == Some(&dest.as_str()) { out.push(it.to_string()); } }
+            Some("INSTALL") => { if t.get(1) == Some(&dest.as_str()) { out.push(it.to_string()); } }
+            _ => {}
+        }
+    }
+    // installs arrive in hash-map order, and two rounds of them may follow each other directly:
+    // a maximal run becomes one item, "INSTALLS <how many> <which programs>"
+    let mut res = vec![]; let mut i = 0;
+    while i < out.len() {
+        if out[i].starts_with("INSTALL") {
+            let mut j = i; while j < out.len() && out[j].starts_with("INSTALL") { j += 1; }
+            let mut ids: Vec<String> = out[i..j].iter().map(|l| l.split(' ').nth(2).unwrap_or("").to_string()).collect();
+            let n = ids.len(); ids.sort(); ids.dedup();
+            res.push(format!("INSTALLS {} {}", n, ids.join(",")));
+            i = j;
+        } else { res.push(out[i].clone()); i += 1; }
+    }
+    res
+}
+
+/// v1 (a run that was cut short) is what v2 (the run alone) begins with; a last round of installs may be shorter
+fn is_prefix_view(v1: &[String], v2: &[String]) -> bool {
+    if v1.len() > v2.len() { return false; }
+    for (k, (x, y)) in v1.iter().zip(v2.iter()).enumerate() {
+        if x == y { continue; }
+        if k + 1 == v1.len() && x.starts_with("INSTALLS ") && y.starts_with("INSTALLS ") {
+            let (tx, ty): (Vec<&str>, Vec<&str>) = (x.split(' ').collect(), y.split(' ').collect());
+            if tx.len() == 3 && ty.len() == 3 && tx[2] == ty[2] && tx[1].parse::<usize>().unwrap_or(usize::MAX) <= ty[1].parse::<usize>().unwrap_or(0) { continue; }
+        }
+        return false;
+    }
+    true
+}
+
+/// C09, on the implementation alone: a history, and the same history with only the datagrams of one
+/// address; what that datapath sees of the two runs must be the same.
+pub fn eval_isolate(arg: &str) -> String {
+    let (full, a) = match arg.split_once(" @@ ") { Some((f, a)) => (f, a), None => return "UNPARSABLE".into() };
+    let a = match u64::from_str_radix(a.trim(), 16) { Ok(a) => a, Err(_) => return "UNPARSABLE".into() };
+    let secs: Vec<&str> = full.split(" | ").collect();
+    if secs.len() < 5 { return "UNPARSABLE".into(); }
+    let only: Vec<&str> = secs[4].split(" ; ").filter(|e| { let e = e.trim(); !e.starts_with('D') || e[1..].split(':').next().and_then(|x| u64::from_str_radix(x, 16).ok()) == Some(a) }).collect();
+    let alone = format!("{} | {}", secs[..4].join(" | "), if only.is_empty() { "-".to_string() } else { only.join(" ; ") });
+    let run = |s: &str| -> Option<(String, HashMap<usize, u64>)> {
+        let c = parse_case(s)?; let r = run_case_raw(&c);
+        let (res, hs) = r.split_once('\u{1}').map(|(x, y)| (x.to_string(), y.to_string())).unwrap_or((r.clone(), String::new()));
+        let m = hs.split(',').filter_map(|kv| kv.split_once('=')).filter_map(|(k, v)| Some((k.parse().ok()?, u64::from_str_radix(v, 16).ok()?))).collect();
+        Some((res, m)) };
+    match (run(full), run(&alone)) {
+        (Some((r1, h1)), Some((r2, h2))) => {
+            if r1.contains("PANIC") || r2.contains("PANIC") { return "PANIC".into(); }
+            let (v1, v2) = (view_of(&r1, &h1, a), view_of(&r2, &h2, a));
+            // a run that another datapath's undecodable datagram or a receive failure brought to an end
+            // (result ERR) has served this datapath up to that point: a prefix of what it sees alone
+            let aborted = r1.contains("=> ERR");
+            if v1 == v2 || (aborted && is_prefix_view(&v1, &v2)) { "ISOLATED".into() } else {
+                let k = v1.iter().zip(v2.iter()).take_while(|(x, y)| x == y).count();
+                if std::env::var("ISOLATE_DEBUG").is_ok() { eprintln!("FULL {}\nWITH {:?}\nALONE-RUN {}\nALONE {:?}", r1, v1, r2, v2); }
+                format!("INTERFERENCE at {} with-the-others: {} alone: {}", k, v1.get(k).map(|s| s.replace(' ', "_")).unwrap_or("(nothing)".into()), v2.get(k).map(|s| s.replace(' ', "_")).unwrap_or("(nothing)".into()))
+            }
+        }
+        _ => "UNPARSABLE".into(),
+    }
+}
+
+pub fn run_isolate_stream(tier: &str, seed: u64, out: &mut dyn Write) {
+    let n = if tier == "thorough" { 30_000 } else { 1_500 };
+    let mut r = Rng::new(seed ^ 0x0909);
+    let desc = prog_descriptors();
+    let mut done = 0;
+    while done < n {
+        let adv = r.chance(1, 2);
+        // no send failures: which send fails is counted over all datapaths
+        let base = gen_case(&mut r, adv, false);
+        let secs: Vec<&str> = base.split(" | ").collect();
+        let addrs: Vec<u64> = secs[4].split(" ; ").filter_map(|e| { let e = e.trim(); if e.starts_with('D') && e.contains(":CR:") { e[1..].split(':').next().and_then(|x| u64::from_str_radix(x, 16).ok()) } else { None } }).collect();
+        if addrs.is_empty() { continue; }
+        let a = *r.pick(&addrs);
+        let arg = format!("{} @@ {:x}", base, a);
+        let res = eval_isolate(&arg);
+        writeln!(out, "isolate\t{} @@ {:x}\t{}", with_descriptors(&base, &desc), a, res).unwrap();
+        done += 1;
+    }
 }
 
 pub fn eval(arg: &str) -> String {
@@ -650,16 +781,16 @@ fn gen_fields(r: &mut Rng, n: usize) -> String {
 fn gen_ctl_fields(r: &mut Rng, prog: &str, n: usize) -> String {
     // mostly controllable names of that program
     let pool: &[&str] = match prog { "alpha" | "alpha2" => &["ctl", "vctl", "Cwnd", "Rate"], "beta" => &["thresh", "Cwnd"], "gamma" => &["k", "Rate"],
-        "delta" => &["a", "b", "c", "Cwnd", "Rate"], "epsilon" => &["a", "b", "c", "ctl", "Rate"], "theta" => &["t", "Cwnd"], "kappa" => &["kk", "Kk", "Rate"], _ => &["c1", "c2", "Cwnd"] };
+        "delta" => &["a", "b", "c", "Cwnd", "Rate"], "epsilon" => &["a", "b", "c", "ctl", "Rate"], "theta" => &["t", "Cwnd"], "kappa" => &["kk", "Kk", "Rate"], "lambda" => &["Cwnd", "Rate"], _ => &["c1", "c2", "Cwnd"] };
     if n == 0 { return "-".into(); }
     (0..n).map(|_| format!("{}={:x}", if r.chance(9, 10) { *r.pick(pool) } else { *r.pick(&PROBE_NAMES) }, r.u32b())).collect::<Vec<_>>().join("&")
 }
 fn gen_cmds(r: &mut Rng, report: bool) -> String {
     let n = r.below(4);
     if n == 0 { return "-".into(); }
-    let progs = ["alpha", "beta", "gamma", "dup", "delta", "alpha2", "epsilon", "eta", "theta", "iota", "kappa", "nosuchprog", "bad"];
+    let progs = ["alpha", "beta", "gamma", "dup", "delta", "alpha2", "epsilon", "eta", "theta", "iota", "kappa", "lambda", "nosuchprog", "bad"];
     (0..n).map(|_| {
-        let p = if r.chance(5, 6) { *r.pick(&progs[..11]) } else { *r.pick(&progs) };
+        let p = if r.chance(5, 6) { *r.pick(&progs[..12]) } else { *r.pick(&progs) };
         let k = if report { r.below(6) } else { r.below(3) };
         let nf = r.below(4) as usize;
         match k {
@@ -673,7 +804,7 @@ fn gen_cmds(r: &mut Rng, report: bool) -> String {
 
 fn report_fields_of(p: usize) -> &'static [&'static str] {
     match p { 0 | 7 => &["Report.acked", "Report.rtt"], 1 => &["Report.loss", "Report.sacked", "Report.inflight"], 2 => &["Report.x"],
-        3 => &["Report.one"], 4 => &["Report.two", "Report.three"], 8 => &["Report.m2"], 9 => &["Report.z1"], 10 => &["Report.z2"], 11 => &["Report.z3"], 12 => &["Report.z4"], _ => &["Report.m"] }
+        3 => &["Report.one"], 4 => &["Report.two", "Report.three"], 8 => &["Report.m2"], 9 => &["Report.z1"], 10 => &["Report.z2"], 11 => &["Report.z3"], 12 => &["Report.z4"], 13 => &["Report.q"], _ => &["Report.m"] }
 }
 
 /// Structured generation: tracks which (address, flow id) pairs are live so that most
@@ -699,8 +830,8 @@ pub fn gen_case(r: &mut Rng, adversarial: bool, faults: bool) -> String {
         if r.chance(1, 3) { ps.push(7); }
         if r.chance(1, 2) { ps.push(8); }
         // now and then (nearly) the whole table: more than ten programs in one runtime
-        if r.chance(1, 6) { for p in [0usize, 1, 2, 3, 6, 7, 8, 9, 10, 11, 12] { if !ps.contains(&p) && !(p == 3 && ps.contains(&4)) { ps.push(p); } } }
-        else { for p in [9usize, 10, 11, 12] { if r.chance(1, 5) { ps.push(p); } } }
+        if r.chance(1, 6) { for p in [0usize, 1, 2, 3, 6, 7, 8, 9, 10, 11, 12, 13] { if !ps.contains(&p) && !(p == 3 && ps.contains(&4)) { ps.push(p); } } }
+        else { for p in [9usize, 10, 11, 12, 13] { if r.chance(1, 5) { ps.push(p); } } }
         if ps.contains(&3) && ps.contains(&4) { ps.retain(|x| *x != 4); }   // one map cannot hold a name twice
         if *i == 0 && ps.is_empty() { ps.push(0); }
         if r.chance(1, 80) { ps.push(5); }
